@@ -1,4 +1,9 @@
-"""Mutant list for ./selftest: small realistic changes, one per entry."""
+"""Mutant list for ./selftest: small realistic changes, one per entry.
+
+Each file mutants.d/cXX.py calls M(pid, name, file, old, new[, count]).
+"""
+import glob
+import os
 
 MUTANTS = []
 
@@ -8,27 +13,6 @@ def M(pid, name, file, old, new, count=1):
         count=count))
 
 
-# ---- C01
-M('C01', 'add-block-order', 'act_two.py',
-  "            L1 = np.concatenate([G1, Z1], axis=2)\n            L2 = np.concatenate([Z2, G2], axis=2)",
-  "            L1 = np.concatenate([Z1, G1], axis=2)\n            L2 = np.concatenate([G2, Z2], axis=2)")
-M('C01', 'sub-number-sign', 'act_two.py',
-  "Y2 = teneva.const(teneva.shape(Y1), -1.*Y2)",
-  "Y2 = teneva.const(teneva.shape(Y1), 1.*Y2)")
-M('C01', 'mul-kron-swapped', 'act_two.py',
-  "        G = G1[:, None, :, :, None] * G2[None, :, :, None, :]\n        G = G.reshape([G1.shape[0]*G2.shape[0], -1, G1.shape[-1]*G2.shape[-1]])\n        Y.append(G)",
-  "        G = G1[:, None, :, None, :] * G2[None, :, :, :, None]\n        G = G.reshape([G1.shape[0]*G2.shape[0], -1, G1.shape[-1]*G2.shape[-1]])\n        Y.append(G)")
-M('C01', 'mean-normalisation', 'act_one.py',
-  "            p = np.ones(k) / k if norm else np.ones(k)",
-  "            p = np.ones(k) / (k + 1) if norm else np.ones(k)")
-M('C01', 'interface-natural-norm', 'act_one.py',
-  "                phi[k] /= Y[k].shape[1]", "                phi[k] /= Y[k].shape[2]")
-M('C01', 'get-many-index-from-end', 'act_one.py',
-  "        Q = np.einsum('...q, q...r -> ...r', Q, Yk[:, I[..., k], :])",
-  "        Q = np.einsum('...q, q...r -> ...r', Q, Yk[:, I[..., -k], :])")
-M('C01', 'erank-formula', 'props.py',
-  "    b = r[0] * n[0] + n[d-1] * r[d]", "    b = r[0] * n[0] + n[d-2] * r[d]")
-M('C01', 'accuracy-denominator', 'act_two.py',
-  "    z2, p2 = teneva.norm(Y2, use_stab=True)", "    z2, p2 = teneva.norm(Y1, use_stab=True)")
-M('C01', 'grad-outer-transposed', 'act_one.py',
-  "        Q[:, k, :] = np.outer(p_l, p_r)", "        Q[:, k, :] = np.outer(p_r, p_l).T if len(p_l) != len(p_r) else np.outer(p_r, p_l)")
+for _p in sorted(glob.glob(os.path.join(os.path.dirname(os.path.abspath(
+        __file__)), 'mutants.d', 'c*.py'))):
+    exec(compile(open(_p).read(), _p, 'exec'), {'M': M})
